@@ -346,6 +346,18 @@ func (x *Exec) applyContract(fr *Frame, st *State, fc *FuncContract, callee *ssa
 		g := x.safeEvalBool(env, c, key)
 		x.check(st, "pre", c.Tags, pos, key+": "+c.Text, g)
 	}
+	// recursion: the callee's measure must be smaller than the caller's at entry
+	if callee != nil && callee == x.fn && fc.Decreases != nil && x.depth == 0 {
+		eenv := x.contractEnv(x.entry, nil, fc, callee, sig, fr0params(x))
+		var now, before []Term
+		for _, e := range fc.Decreases.Es {
+			now = append(now, x.evalClauseInt(env, fc.Decreases, e))
+			before = append(before, x.evalClauseInt(eenv, fc.Decreases, e))
+		}
+		x.check(st, "decreases", fc.Decreases.Tags, pos, "recursive call: "+fc.Decreases.Text, lexLess(now, before))
+	} else if callee != nil && callee == x.fn && fc.Decreases == nil {
+		x.loopsNoMeasure[key+": recursion without decreases"] = true
+	}
 	if fc.Flags["noreturn"] {
 		st.pc = False
 		if rt == nil {
@@ -720,4 +732,11 @@ func (x *Exec) execGo(fr *Frame, st *State, ins *ssa.Go) {
 		x.get(fr, a)
 	}
 	x.trusted["go statement: spawned goroutine not followed (sequential semantics per goroutine)"] = true
+}
+
+func fr0params(x *Exec) []Value {
+	if len(x.auxFrames) > 0 {
+		return x.auxFrames[0].params
+	}
+	return nil
 }
